@@ -143,10 +143,11 @@ def descendParent (δ : Nat → Nat → K) (K0 : Nat) (Q : CNode K) (st : DState
 
 /-! ### `copy_zero_set`, `copy_cover_sets` -/
 
-/-- one element of `copy_zero_set` / `copy_cover_sets`; `extra` = `ele->n->max_dist` for cover sets, absent for the zero set -/
+/-- one element of `copy_zero_set` / `copy_cover_sets`; `extra` = `ele->n->max_dist` for cover sets, absent for the zero
+    set; `query_chi->max_dist` counts twice (repair F-COVER-COPY) -/
 def copyElem (δ : Nat → Nat → K) (K0 : Nat) (C : CNode K) (extra : Option K) (acc : List K × List (DN K)) (ele : DN K) :
     List K × List (DN K) :=
-  let u1 := addInf (ub0 K0 acc.1) C.maxDist
+  let u1 := addInf (addInf (ub0 K0 acc.1) C.maxDist) C.maxDist
   let upperDist := match extra with | none => u1 | some e => addInf u1 e
   if shell ele.dist C.parentDist upperDist then
     let d := δ C.p ele.node.p
